@@ -112,6 +112,21 @@ TypedChecks(c, x) ==
        Chk("C14", "client_info", clAscii => x.client = cl),
        Chk("C14", "client_info_presence", (x.client = <<>>) = (cl = <<>>))>>
 
+\* C11: the record's own encoding, decoded under each built-in key type, gives the same record wherever the
+\* specification (with the record's oracle facts F) says that key type accepts it
+CrossKtChecks(c, x, tab, F) ==
+  LET P == Parse(c.enc)
+      fit == FactsFit(P, F)
+      one(kt, o) ==
+        LET D == Judge(kt, P, F, fit) IN
+        <<Chk("C11", "own_encoding_accepted_by:" \o kt, (fit /\ D.verdict = "accept") => o.kind = "ok"),
+          Chk("C11", "own_encoding_refused_by:" \o kt, (fit /\ D.verdict = "reject") => o.kind # "ok"),
+          Chk("C11", "same_record_under:" \o kt,
+              (fit /\ D.verdict = "accept" /\ o.kind = "ok") =>
+                 LET d == tab[o.core] IN
+                 d.seq = c.seq /\ d.pairs = c.pairs /\ d.sig = c.sig /\ d.nid = c.nid /\ d.pk = c.pk /\ d.enc = c.enc)>>
+  IN one("k256", x.redec_kts.k256) \o one("libsecp", x.redec_kts.libsecp) \o one("ed", x.redec_kts.ed) \o one("comb", x.redec_kts.comb)
+
 ExtChecks(c, x, tab) ==
   IF x.level = "typed" THEN TypedChecks(c, x)
   ELSE
@@ -129,7 +144,11 @@ ExtChecks(c, x, tab) ==
        Chk("C15", "clone_fields", x.clone.core > 0 /\ tab[x.clone.core] = c)>>
      \o RedecChecks(c, x, tab)
 
-MaybeExt(e, c) == IF e.ext = <<>> THEN <<>> ELSE ExtChecks(c, e.ext[1], e.tab)
+MaybeExt(e, c) ==
+  IF e.ext = <<>> THEN <<>>
+  ELSE ExtChecks(c, e.ext[1], e.tab)
+       \o (IF e.ext[1].level = "full" /\ e.t \in {"call", "build", "clone"} /\ e.facts.ok
+           THEN CrossKtChecks(c, e.ext[1], e.tab, e.facts) ELSE <<>>)
 
 \* C14: what a typed setter stored reads back, through the typed accessors, as the value that was set
 ReadBack(e) ==
